@@ -65,9 +65,11 @@ def cfg(n, maxr, nn, scopes, dmarcs=("off",), only1=False, devs=(), gen=False, l
 
 # exhaustive design runs: (name, kwargs)
 MC_QUICK = [
-    ("mc2", dict(n=2, maxr=2, nn=2, scopes=2, dmarcs=("off",), only1=False)),
+    ("mc2", dict(n=2, maxr=2, nn=2, scopes=2, dmarcs=("off",), only1=False, extrav=())),
     ("mc1", dict(n=1, maxr=3, nn=2, scopes=4, dmarcs=("off", "quar"), only1=True)),
-    ("mc3", dict(n=3, maxr=2, nn=2, scopes=1, dmarcs=("off",), only1=False)),
+    ("mc3", dict(n=3, maxr=2, nn=2, scopes=1, dmarcs=("off",), only1=False, extrav=())),
+    # two checks with the raw combined result Reject && Quarantine in the alphabet
+    ("mc2rq", dict(n=2, maxr=1, nn=2, scopes=2, dmarcs=("off",), only1=False)),
     # destination blocks with a recipient modifier that fails for one recipient
     ("mcmod", dict(n=1, maxr=3, nn=2, scopes=4, modon=True)),
     # the real remote target behind destination block D1
@@ -111,7 +113,8 @@ def norm_cfg(c):
             "kind": c.get("kind", "pipe"),
             "mod": "on" if c.get("mod") == "on" else "off",
             "mfail": sorted(c.get("mfail") or []),
-            "from": "null" if c.get("from") == "null" else "addr"}
+            "from": "null" if c.get("from") == "null" else "addr",
+            "nafin": "abort" if c.get("nafin") == "abort" else "commit"}
 
 
 def behaviours_from(r):
@@ -288,9 +291,10 @@ def convert_repo_trace(evs):
         else:
             return None, "recipient-stage verdicts outside the model (differ per recipient)"
     na = any(e["e"] == "Cmd" and e["op"] == "bodyNA" for e in evs)
+    nafin = "abort" if any(e["e"] == "Cmd" and e["op"] == "abort" for e in evs) else "commit"
     cfg_ev = {"e": "Cfg", "seq": 0, "place": {k: sorted(place.get(k, [])) for k in CH4}, "verd": verd,
               "only1": sorted(only1), "route": route, "path": "na" if na else "atomic", "dmarc": "off",
-              "kind": "pipe", "mod": "off", "mfail": []}
+              "kind": "pipe", "mod": "off", "mfail": [], "nafin": nafin}
     out = [cfg_ev]
     for e in evs:
         n = {"seq": e["seq"], "e": e["e"]}
@@ -469,7 +473,9 @@ def run(ctx, replay):
             if i == 6:      # the widest small scope is sampled (seeded); the others are replayed completely
                 got = vlib.sample(ctx.rng, got, 4000)
             if i == 0 and not thorough:
-                got = vlib.sample(ctx.rng, got, 1500)
+                got = vlib.sample(ctx.rng, got, 1200)
+            if i in (4, 5) and not thorough:
+                got = vlib.sample(ctx.rng, got, 450)
             behs += got
         ctx.cov["exhaustive_small_scope_behaviours"] = len(gens[0].result()) + \
             sum(len(f.result()) for f in gens[4:])
@@ -573,7 +579,7 @@ def run(ctx, replay):
     ctx.cov["distinct_nontrivial"] = sum(1 for b in behs if nontrivial(b))
     ctx.cov["rule"] = ("behaviours = complete behaviours of CheckRunner.tla printed by TLC: every behaviour of small "
                        "scopes (1 check, <=2 recipients, <=1 non-none verdict, destination modifiers failing for at "
-                       "most one recipient - sampled to 1500 in quick; the real remote target behind block D1 with "
+                       "most one recipient - sampled to 1200 in quick; the real remote target, and the real queue with the remote target behind it, as the target of block D1 (450 each in quick) with "
                        "both body paths and DMARC; thorough also 1 check with <=2 "
                        "non-none verdicts on any placement with DMARC, and 2 checks in one block each with all "
                        "completion orders) plus -simulate over 3 (thorough 4) checks, 3 recipients, <=2 (3) non-none "
@@ -591,7 +597,8 @@ def run(ctx, replay):
         "recording targets that always succeed; the real remote target is exercised with an already flagged message "
         "(RCPT) and behind the pipeline over an in-memory next hop that accepts everything (body stage, both paths); "
         "a refusal by the remote target is a 5.7.z policy error with nothing handed to the next hop",
-        "after BodyNonAtomic the driver always calls Commit, as the LMTP endpoint and the queue do; after a refused "
+        "after a BodyNonAtomic that was refused for every recipient the driver ends both ways: Commit (as the LMTP "
+        "endpoint and the queue always do; the pipeline must then abort its targets) and Abort; after a refused "
         "atomic Body it calls Abort",
         "verdicts are per stage (rcpt-stage verdicts optionally for the first recipient only), from {none, ignore, "
         "quarantine, reject} through the real FailAction.Apply plus the raw combined result Reject && Quarantine "
